@@ -125,7 +125,7 @@ prop("C11",
      harness="c11",
      level_text="Lean theorems: an assembly step returns exactly the iterate clockEdge^(k1+k2) where k1 edges leave the boundary and k2 edges run to the FIRST state that is at the next boundary, halted or a fixed point (never more, never less: every earlier iterate still satisfies the loop condition and is no fixed point); real mode = one edge; a halted machine returns unchanged; the step mode is neither read nor written by clock edges. TERMINATION is a theorem for every machine at an instruction boundary: keyClock_terminates - whatever the registers, flags, memory, wait flag, halt state and supervision limits, with any defined instruction at PC (MUL and DIV with any operands included, by C01's isa_refines) and no interrupt pending, trigger_key_clock in assembly mode returns; reach_done - if the data path reaches a boundary word within n steps the machine leaves the loop condition after at most 2n clock edges; after_fetch_not_done - the first loop ends after one executed edge (over the regenerated control store). keyClock_terminates_pending - the same with an interrupt request pending and any interrupt-enable flag (the step then runs through the interrupt entry) for every one-byte instruction outside MUL/DIV; stepB_terminates_mid / stepB_terminates_mid_second - from ANY state inside the routine of such an instruction, inside the interrupt entry sequence that follows it, or inside the routine of a defined second opcode byte the step returns, whatever data, flags and flip-flop hold (from C09's exploration of the regenerated control store through completes_sound / visited_sound: every execution from a visited node reaches a fetch word within 15 steps). For states inside a MUL/DIV loop, a pending interrupt at the end of MUL/DIV or of a two-byte instruction, or an undefined opcode (hang words become fixed points, fix c003f27) termination is conditional (stepB_terminates_partial) and established by the harness sweep (all 256 opcode bytes x second bytes under a watchdog, every mid-run state of generated runs incl. interrupt entry)",
      technique="Lean 4 loop characterisation by induction on fuel + termination from the ISA refinement (every data-path step costs at most two edges) + differential: real trigger_key_clock on a clone vs single edges to the boundary at every edge of generated runs, watchdog for termination",
-     rule="(1) every opcode byte 0..255 at PC (prefixes x defined second bytes + a rotating eighth of all second bytes), three consecutive assembly steps each, real step on a clone under a 5 s watchdog compared (PartialEq) with single edges to the next boundary; (2) 40/400 runs of 300 edges of confined and random programs with stimuli: at EVERY edge a clone is stepped in assembly mode and compared; random mode switches mid-run; (3) long instructions: DIV/MUL with every dividend and divisors 1,2,3,7,255; distinct = distinct op lines",
+     rule="(1) every opcode byte 0..255 at PC (prefixes x defined second bytes + a rotating eighth of all second bytes), three consecutive assembly steps each, real step on a clone under a 5 s watchdog compared (PartialEq) with single edges to the next boundary; (2) 40/400 runs of 300 edges of confined and random programs with stimuli: at EVERY edge a clone is stepped in assembly mode and compared; random mode switches mid-run; (3) long instructions: DIV/MUL with every dividend and divisors 1,2,3,7,255; (4) steps across the interrupt entry: programs with the key interrupt enabled that visit the end word and the `int:` word of every opcode page (page 0: NOP, CLR), the key pressed at every clock cycle, a step issued on a copy at each of the following 45 edges; distinct = distinct op lines",
      explanation="hang words (undefined opcodes) become fixed points after their second execution; the fix c003f27 leaves the loop there",
      assumptions=["termination from states inside a MUL/DIV loop and with a request pending at the end of MUL/DIV or a two-byte instruction rests on the conditional theorem plus the harness sweep (see level text)"],
      )
